@@ -79,6 +79,11 @@ fn parse_tree(
         let namelen = memchr(b'\0', text)
             .ok_or_else(|| ObjectFormatException::new_err(("Missing trailing \\0",)))?;
         let name = &text[..namelen];
+        if name.is_empty() {
+            return Err(ObjectFormatException::new_err((
+                "empty filename in tree entry",
+            )));
+        }
 
         // Skip name and null terminator
         text = &text[namelen + 1..];
